@@ -39,6 +39,7 @@ THEOREMS = [
     "OllamaVerif.C09.F10b_repeated_chunk_satisfies_counter",
     "OllamaVerif.C09.F10c_chunk_digests_from_registry",
     "OllamaVerif.C09.F10d_size_lie_overwrites_verified_blob",
+    "OllamaVerif.C09.F10abc_repaired_variant",
     "OllamaVerif.C09.pull_success_verified_partial",
 ]
 OVERLAY = {"server/internal/client/ollama/zz_verif_c09_test.go": "server_internal_client_ollama/zz_verif_c09_test.go"}
